@@ -117,6 +117,9 @@ type TunClient struct {
 	// not be replayed, so each connection needs a fresh one)
 	AuthFn func(role string) string
 	ExtraHdr  string
+	// Opaque: the connections carry bytes that legitimately differ between executions of the
+	// same schedule (a session cookie): journaled without content
+	Opaque bool
 	GWAddr    string
 
 	WS, Out, In *sim.End
@@ -206,6 +209,9 @@ func (c *TunClient) OpenWS() error {
 		return err
 	}
 	c.WS = e
+	if c.Opaque {
+		e.Opaque, e.Peer.Opaque = true, true
+	}
 	c.attach(e, "ws")
 	key := base64.StdEncoding.EncodeToString([]byte(fmt.Sprintf("%-16.16s", c.Name+c.ConnID)))
 	c.start("ws", e, func(auth string) []byte {
@@ -222,6 +228,9 @@ func (c *TunClient) OpenOut() error {
 		return err
 	}
 	c.Out = e
+	if c.Opaque {
+		e.Opaque, e.Peer.Opaque = true, true
+	}
 	c.seedLeft = 10
 	c.attach(e, "out")
 	c.start("out", e, func(auth string) []byte {
@@ -240,6 +249,9 @@ func (c *TunClient) OpenIn(fromOverride string) error {
 		return err
 	}
 	c.In = e
+	if c.Opaque {
+		e.Opaque, e.Peer.Opaque = true, true
+	}
 	c.attach(e, "in")
 	c.start("in", e, func(auth string) []byte {
 		if c.ntlmStage["in"] == 1 {
